@@ -1270,7 +1270,7 @@ def prove(ck, cases, count_first=2):
     failure needs no second Coq run."""
     ready, res = [], []
     for i, c in enumerate(cases):
-        ck.evaluations += 1
+        ck.evaluations += len(c.design_obj.nodes)      # one evaluation per expression (a design bundles several)
         single = len(c.design_obj.nodes) == 1
         c.count = i < count_first and not single
         try:
